@@ -91,7 +91,7 @@ def _one(args):
     for k, mk in enumerate(subs):
         script = {}
         if k == 0:
-            acts = [L.P("XB"), L.P("PBn"), L.P("X2")][:n_orders]
+            acts = [L.P("XB"), L.P("PBn"), L.P("X2")][:n_orders] if n_orders != -1 else [L.P("PBv")]  # -1: one placement that fails (no bet id)
             if mtype == "ASIAN_HANDICAP":
                 acts = [L.P("XB", hc=-0.5), L.P("XB", hc=0.5), L.P("X2")][:n_orders]
             if n_clients == 2 and len(acts) > 1:
@@ -431,6 +431,9 @@ def run(tier):
                 if not thorough and len(s) == maxlen and (n_clients, len(subs)) != (1, 1):
                     continue
                 jobs.append(((s,), n_orders, n_clients, subs, False, "WIN"))
+    # the market's only order is a placement the exchange refused (it never got a bet id): still "has orders"
+    for s in (("U", "CL"), ("U", "CL", "MD"), ("T", "CL", "OPN", "CL")):
+        jobs.append(((s,), -1, 1, sub_sets[0], False, "WIN"))
     # re-settlement: a later closing book changes the result (after a re-open, or as a repeated CLOSED book)
     for s in (("U", "CL", "SUS", "CLx"), ("U", "CL", "SUS", "CL", "MD"), ("U", "CL", "OPN", "CLx"), ("T", "CL", "CLx"), ("U", "CL", "MD", "CLx"), ("U", "CL0", "CLx", "CL"), ("U", "CLx", "OPN", "U", "CL")):
         for n_orders in (1, 3):
